@@ -30,12 +30,15 @@ StepLayout(e) ==
                 /\ e.whole.bbox = BoundingBoxT(e.font, e.sty, ts, e.text, e.pos, "pinned")
          fix == e.whole.ret = TextRetT(e.font, e.sty, ts, e.text, e.pos, "fixed")
                 /\ e.whole.bbox = BoundingBoxT(e.font, e.sty, ts, e.text, e.pos, "fixed")
+         crl == e.whole.ret = TextRetT(e.font, e.sty, ts, e.text, e.pos, "crlf")
+                /\ e.whole.bbox = BoundingBoxT(e.font, e.sty, ts, e.text, e.pos, "crlf")
          x == Exercised(e)
-     IN /\ IF pin \/ fix THEN TRUE
+     IN /\ IF pin \/ fix \/ crl THEN TRUE
            ELSE Drift(e.case, "text_ret_bbox", [text |-> e.text, align |-> e.align, ret |-> e.whole.ret, bbox |-> e.whole.bbox])
         /\ Stat([layouts |-> 1, rel_ret |-> x.ret, rel_align |-> x.align, rel_baseline_shift |-> x.baseline_shift,
                  rel_multiline |-> x.multiline, rel_crlf |-> x.crlf, rel_chain |-> x.chain, rel_bounded |-> x.bounded,
-                 model_pinned_only |-> IF pin /\ ~fix THEN 1 ELSE 0, model_fixed_only |-> IF fix /\ ~pin THEN 1 ELSE 0])
+                 model_pinned_only |-> IF pin /\ ~fix /\ ~crl THEN 1 ELSE 0, model_fixed_only |-> IF fix /\ ~pin /\ ~crl THEN 1 ELSE 0,
+                 model_crlf_only |-> IF crl /\ ~fix THEN 1 ELSE 0])
 \* a library call of this case panicked: the property promises a result for every input of its domain
 StepPanic(e) == e.ev = "panic" /\ Report(e.case, {"library_call_panicked"}, [msg |-> e.msg, loc |-> e.loc])
 
